@@ -69,8 +69,8 @@ CHECKS["C01"] = NS(
         "idempotence asserted for fp32/fp16 only, on elements whose scale*code is finite and not subnormal (excluded elements are counted)",
     ],
     PLAN={
-        "quick": [("square", 8, {"scales_per_combo": 700}), ("fp32", 4, {"n": 400}), ("layout", 4, {"n": 800}), ("mixed", 4, {"n": 400})],
-        "thorough": [("square", 16, {"scales_per_combo": None}), ("fp32", 8, {"n": 10000}), ("layout", 8, {"n": 15000}), ("mixed", 8, {"n": 8000})],
+        "quick": [("square", 8, {"scales_per_combo": 700}), ("fp32", 4, {"n": 400}), ("layout", 4, {"n": 800}), ("mixed", 4, {"n": 400}), ("order", 4, {"n": 150})],
+        "thorough": [("square", 16, {"scales_per_combo": None}), ("fp32", 8, {"n": 10000}), ("layout", 8, {"n": 15000}), ("mixed", 8, {"n": 8000}), ("order", 8, {"n": 6000})],
     },
 )
 
